@@ -13,10 +13,13 @@ import (
 
 type counters struct{ ran string }
 
-type nsA struct{ c *counters }
+type nsA struct {
+	c   *counters
+	tag string // "A" or "C": the same type is registered under two namespaces
+}
 
-func (h *nsA) Foo(ctx context.Context, a int) (int, error) { h.c.ran += "A.Foo;"; return a, nil }
-func (h *nsA) Bar(a int, s string) error                   { h.c.ran += "A.Bar;"; return nil }
+func (h *nsA) Foo(ctx context.Context, a int) (int, error) { h.c.ran += h.tag + ".Foo;"; return a, nil }
+func (h *nsA) Bar(a int, s string) error                   { h.c.ran += h.tag + ".Bar;"; return nil }
 
 type nsB struct{ c *counters }
 
@@ -89,9 +92,10 @@ func HarnessDispatch() {
 	f := formatters[fi]
 	c := &counters{}
 	srv := jsonrpc.NewServer(jsonrpc.WithServerMethodNameFormatter(f.fn))
-	srv.Register("A", &nsA{c})
+	srv.Register("A", &nsA{c, "A"})
 	srv.Register("B", &nsB{c})
-	regs := []regd{{"A", "Bar", "A.Bar;"}, {"A", "Foo", "A.Foo;"}, {"B", "Foo", "B.Foo;"}, {"B", "Qux", "B.Qux;"}}
+	srv.Register("C", &nsA{c, "C"}) // same Go type as namespace A, other instance
+	regs := []regd{{"A", "Bar", "A.Bar;"}, {"A", "Foo", "A.Foo;"}, {"B", "Foo", "B.Foo;"}, {"B", "Qux", "B.Qux;"}, {"C", "Bar", "C.Bar;"}, {"C", "Foo", "C.Foo;"}}
 	aliases := map[string]string{}
 	switch verif.Choice("alias", 5) {
 	case 1: // alias to existing
@@ -121,7 +125,7 @@ func HarnessDispatch() {
 	case "":
 		verif.Assert(c.ran == "", "unknown-method-runs-nothing")
 		verif.Assert(rp.Error != nil && rp.Error.Code == -32601, "unknown-method-code")
-	case "A.Foo;", "B.Foo;":
+	case "A.Foo;", "B.Foo;", "C.Foo;":
 		verif.Assert(c.ran == want, "resolved-handler")
 		verif.Assert(rp.Error == nil && rp.Result != nil, "resolved-result")
 	default: // Bar (2 params) and Qux (0 params) get one param: wrong arity
